@@ -329,3 +329,24 @@ def run(ck, prog, tier, load):
     order_ok = len(upd) == 2 and any(r[0] == "arg" for r in e_roots(upd[0])) and e_has_const(upd[1], r"WS_GUID$")
     ck.ob("C14-e.accept-key", hk.npath, guid_ok and order_ok, hk, None, "hash_key = SHA1(key || WS_GUID) with WS_GUID == RFC 6455 GUID (%s), update order key,GUID (%s)" % (guid_ok, order_ok))
     ck.ob("C14-e.accept-key-len", hk.npath, hk.lty(0) == "[u8; 28]" and bool(list(hk.calls(r"encode_slice$"))), hk, None, "accept key is base64 of the 20-byte digest: [u8; 28]", nontrivial=False)
+    # masking: the aligned fast paths split the payload into (prefix, words, suffix); after a prefix of n bytes the mask
+    # continues rotated by n, so words AND suffix must use the rotated mask; only the prefix uses the mask as given
+    n_m = 0
+    for b in prog.in_file("actix-http/src/ws/mask.rs"):
+        if "::tests::" in b.npath:
+            continue
+        al = [bb for bb, t in b.calls(r"align_to_mut$")]
+        if not al:
+            continue
+        for bb, t in b.calls(r"apply_mask_fallback$"):
+            part = b.op_expr(t["args"][0], 5)
+            which = [p_ for x in walk(part) if x[0] == "place" for p_ in x[2] if isinstance(p_, str) and p_ in (".0", ".1", ".2")]
+            m = b.op_expr(t["args"][1], 6)
+            raw = m[0] == "arg"
+            if which and which[-1] == ".2":
+                n_m += 1
+                ck.ob("C14-f.suffix-uses-rotated-mask", b.npath.split("::")[-1], not raw and (bool(e_calls(m, r"to_ne_bytes$|rotate_left$|rotate_right$")) or m[0] in ("var", "phi", "agg", "place", "call")), b, bb,
+                      "the bytes after the aligned words are masked with the rotated mask (the mask as given is only right for the unaligned prefix): %s" % short(m, 4))
+            elif which and which[-1] == ".0":
+                ck.ob("C14-f.prefix-uses-given-mask", b.npath.split("::")[-1], raw, b, bb, "the unaligned prefix is masked with the mask as given: %s" % short(m, 4))
+    ck.anchor("C14-f", n_m, 1, "masking of the unaligned suffix in the aligned fast path(s)")
